@@ -34,7 +34,7 @@ CLAUSES = {'vd-terminator', 'both-endian', 'vd-root-record', 'vd-sizes-agree', '
 
 
 def strategy(tier):
-    w = {'mixed': 4, 'growshrink': 3, 'deep': 3, 'links': 2, 'boot': 2, 'hybrid': 1, 'exactfill': 6, 'ptedge': 2, 'samename': 1, 'reloctwins': 1}
+    w = {'mixed': 4, 'growshrink': 3, 'deep': 3, 'links': 2, 'boot': 2, 'hybrid': 1, 'exactfill': 6, 'ptedge': 2, 'samename': 1, 'reloctwins': 1, 'rrfull': 1}
     if tier == 'thorough':
         w['manydirs'] = 1
     return st.tuples(gen.any_profile(reopen_ok=False, weights=w, with_manydirs=(tier == 'thorough')), st.none())
